@@ -227,12 +227,24 @@ func (s *scen) run() core.Result {
 		if k < 0 {
 			c = -k - 1 // undersized buffers: capacity 0, 1, 2, ...
 		}
-		buf := make([]byte, 0, c)
+		// the buffer is the front of an arena whose rest is 0xAA: nothing may be written behind the capacity
+		arena := make([]byte, c+96)
+		for i := c; i < len(arena); i++ {
+			arena[i] = 0xAA
+		}
+		buf := arena[:0:c]
 		var e2 error
 		ctx, gb := mkctx()
 		pi := core.Catch(func() { e2 = cv.DoInto(ctx, desc, src, &buf) })
 		r.Count("conversions", 1)
 		r.Count("dointo_runs", 1)
+		for i := c; i < len(arena); i++ {
+			if arena[i] != 0xAA {
+				r.Class = "violation"
+				r.Add(fmt.Sprintf("t2j.DoInto|%s|writes-beyond-capacity", s.op), "trigger %s, options %s, buffer with len 0 and cap %d: byte cap+%d overwritten (%x)\nmsg %s", s.trigger, s.optName, c, i-c, arena[i], cliphex(msg, 200))
+				break
+			}
+		}
 		if pi != nil {
 			r.Class = "panic"
 			r.Add(fmt.Sprintf("t2j.DoInto|%s|panic@%s:%s", s.op, pi.Site, core.PanicClass(pi.Val)), "trigger %s, capacity %d, msg %s\npanic: %.300s\n%.1500s", s.trigger, c, cliphex(msg, 200), pi.Val, pi.Stack)
